@@ -13,6 +13,9 @@ package stringlib
 // Builder.Grow, ToLower/ToUpper) is preceded by memory charges (RequireBytes ...)
 // that cover it, up to the stated constant slack.
 
+// string.rep(s, n, sep) (manual §6.4): n copies of s separated by sep; proved
+// here for the paths that do not go through strings.Builder: the length of the
+// result is n*len(s) + (n-1)*len(sep) (so an empty s with a separator is not "").
 //@ func rep
 //@   prop C06 C19
 //@   arith int
@@ -22,6 +25,30 @@ package stringlib
 //@   exits any
 //@   allocs charged slack 0
 //@   loop 1: invariant true
+//@   assert_before_call StringValue inscope: ln == 1 ==> $s == ls
+//@   assert_before_call StringValue inscope: len($s) == 0 ==> ln == 0 || (ln == 1 && len(ls) == 0) || (len(ls) == 0 && sep == nil) || (ln >= 2 && sep != nil && n == 0)
+
+// string.sub(s, i, j): the bytes from max(1, norm i) to min(#s, norm j), or the
+// empty string; the slice taken is always within the string (bounds obligations
+// are generated for all int64 i, j).
+//@ func sub
+//@   prop C19
+//@   arith int
+//@   requires goFuncPre(t, c)
+//@   modifies everything()
+//@   exits any
+//@   assert_before_call StringValue inscope: i == spec.max(1, ite(ii >= 0, ii, len(s) + 1 + ii)) && j <= len(s)
+//@   assert_before_call StringValue inscope: len($s) == ite(i <= len(s) && i <= j, j - i + 1, 0)
+
+// string.byte(s, i, j): pushes s[i..j] clipped to the string; never indexes
+// outside it.
+//@ func bytef
+//@   prop C19
+//@   arith int
+//@   requires goFuncPre(t, c)
+//@   modifies everything()
+//@   exits any
+//@   loop 1: invariant 1 <= i && j <= len(s)
 
 //@ func reverse
 //@   prop C06
